@@ -11,6 +11,9 @@
 
    State
      cls     the flag class of the running application = its sortedFields(); bit (i-1) means cls[i]
+     defn    the order in which the class's fields were DEFINED = list(Flag.fields()).  Fields may carry explicit bit values
+             (class attributes with int values, Flag.extend({name: value})), so defn is any permutation of cls.  No operator
+             of the codec reads it: the meaning of a bit is given by cls alone (definition order is a don't-care).
      wsets   what was written: one set of field names per object
      store   the dataset rows (bytes) and the flag_order attribute
      back    what reading returned: one set of field names per object (names under the class AFTER the read)
@@ -18,17 +21,18 @@
      Write(sets)   FlagSerializer.pack on the current class
      RefuseUnset   a collection with an unset (None) entry: pack raises, nothing is stored
      Extend(n)     Flag.extend({n: auto()}) between writing and reading (a plugin registers one more flag: appended)
+     ExtendPair    Flag.extend({x: second free bit}) ; Flag.extend({y: auto()}): bits stay dense, definition order # bit order
      Redefine(o)   the database is read by another application whose class lists other/reordered fields
      Read(ext)     FlagSerializer.unpack; names of the file unknown to the class are appended first, in the arbitrary
                    order "for k in missingFlags" (a python set) yields them: ext is any permutation of them
 
-   Domain: dense classes -- every field is an auto() power of two, as in armi.reactor.flags.Flags (explicit non-power
-   values or gaps are outside what the serializer's "index in sortedFields() == bit" convention can express).        *)
+   Domain: dense classes -- the fields occupy bits 0..n-1, one each, in any definition order (explicit non-power values or
+   gaps are outside what the serializer's "index in sortedFields() == bit" convention can express).                 *)
 EXTENDS Integers, Sequences, FiniteSets, TLC, Json, SequencesExt, FiniteSetsExt
 
 CONSTANTS Names, MaxObj
-VARIABLES cls, phase, wsets, store, back
-fvars == <<cls, phase, wsets, store, back>>
+VARIABLES cls, defn, phase, wsets, store, back
+fvars == <<cls, defn, phase, wsets, store, back>>
 
 Ix(s)     == 1..Len(s)
 Rng(s)    == {s[i] : i \in Ix(s)}
@@ -52,27 +56,32 @@ Remap(v, passed, now) ==
 Unpack(bs, passed, now) ==
   LET v == FromBytes(bs) IN IF SamePrefix(passed, now) THEN NamesOf(v, now) ELSE NamesOf(Remap(v, passed, now), now)
 
-NoStore == [order |-> <<>>, rows |-> <<>>]
+\* wdef is not in the file: the definition order of the writing class, remembered so that an emitted case can rebuild it
+NoStore == [order |-> <<>>, rows |-> <<>>, wdef |-> <<>>]
 
 WriteAny(sets) == /\ phase = "defined" /\ sets # <<>>
                   /\ \A i \in Ix(sets) : sets[i] \subseteq Rng(cls)
                   /\ wsets' = sets
-                  /\ store' = [order |-> cls, rows |-> [i \in Ix(sets) |-> ToBytes(Val(sets[i], cls), Width(cls))]]
-                  /\ phase' = "stored" /\ UNCHANGED <<cls, back>>
+                  /\ store' = [order |-> cls, rows |-> [i \in Ix(sets) |-> ToBytes(Val(sets[i], cls), Width(cls))], wdef |-> defn]
+                  /\ phase' = "stored" /\ UNCHANGED <<cls, defn, back>>
 \* "with any pattern of unset entries": a flag column cannot hold None (None.to_bytes) -- refused at write time
-RefuseUnset == /\ phase = "defined" /\ phase' = "refused" /\ UNCHANGED <<cls, wsets, store, back>>
+RefuseUnset == /\ phase = "defined" /\ phase' = "refused" /\ UNCHANGED <<cls, defn, wsets, store, back>>
 Extend(n) == /\ phase = "stored" /\ n \in Names \ Rng(cls)
-             /\ cls' = Append(cls, n) /\ UNCHANGED <<phase, wsets, store, back>>
-RedefineAny(o) == /\ phase = "stored" /\ o # <<>> /\ Distinct(o) /\ o # cls
-                  /\ cls' = o /\ UNCHANGED <<phase, wsets, store, back>>
+             /\ cls' = Append(cls, n) /\ defn' = Append(defn, n) /\ UNCHANGED <<phase, wsets, store, back>>
+\* Flag.extend({x: <second free bit>}) then Flag.extend({y: auto()}): y is defined later but receives the lower bit
+ExtendPair(x, y) == /\ phase = "stored" /\ x # y /\ {x, y} \subseteq Names \ Rng(cls)
+                    /\ cls' = cls \o <<y, x>> /\ defn' = defn \o <<x, y>> /\ UNCHANGED <<phase, wsets, store, back>>
+IsPerm(d, o) == Len(d) = Len(o) /\ Rng(d) = Rng(o)
+RedefineAny(o, d) == /\ phase = "stored" /\ o # <<>> /\ Distinct(o) /\ IsPerm(d, o) /\ <<o, d>> # <<cls, defn>>
+                     /\ cls' = o /\ defn' = d /\ UNCHANGED <<phase, wsets, store, back>>
 Missing == Rng(store.order) \ Rng(cls)
 Read(ext) == /\ phase = "stored" /\ Rng(ext) = Missing /\ Len(ext) = Cardinality(Missing)
-             /\ cls' = cls \o ext
+             /\ cls' = cls \o ext /\ defn' = defn \o ext
              /\ back' = [i \in Ix(store.rows) |-> Unpack(store.rows[i], store.order, cls')]
              /\ phase' = "read" /\ UNCHANGED <<wsets, store>>
 
 (* ------------------------------------------------ properties ----------------------------------------------- *)
-FTypeOK == /\ phase \in {"defined", "stored", "read", "refused"} /\ Distinct(cls) /\ cls # <<>>
+FTypeOK == /\ phase \in {"defined", "stored", "read", "refused"} /\ Distinct(cls) /\ cls # <<>> /\ IsPerm(defn, cls)
            /\ \A i \in Ix(store.rows) : Len(store.rows[i]) = Width(store.order) /\ \A j \in Ix(store.rows[i]) : store.rows[i][j] \in 0..255
 FRefusalStoresNothing == phase = "refused" => (store = NoStore /\ back = <<>>)
 \* the clause itself
